@@ -497,6 +497,7 @@ func newSchemaType(spec *specification.Schema, components Componenter, cfg Confi
 				// the member was built by NewSchema above: building it again would
 				// register the types of its nested inline schemas a second time
 				s.Fields = append(s.Fields, st.Fields...)
+				s.keepAdditionalProperties(st)
 			} else if schema.Kind() == SchemaKindObject {
 				st, ims, err := NewStructureType(a.Value(), components, cfg)
 				if err != nil {
@@ -504,6 +505,7 @@ func newSchemaType(spec *specification.Schema, components Componenter, cfg Confi
 				}
 				imports = append(imports, ims...)
 				s.Fields = append(s.Fields, st.Fields...)
+				s.keepAdditionalProperties(st)
 			} else {
 				return nil, nil, fmt.Errorf("allOf: %d-th element: wrong schema type: only type 'object' is supported: object type: %q", i, schema.Kind())
 			}
